@@ -263,7 +263,7 @@ class Ctx:
                         break
         if not ok:
             rec = {"point": name, "level": level, "case": case, "detail": detail,
-                   "signature": sig or f"{name}", "theorem": theorem}
+                   "signature": sig or f"{name}", "theorem": theorem, "env": getattr(self, "env_name", None)}
             (self.prop_mismatch if level == "property" else self.aux_mismatch).append(rec)
         return ok
 
@@ -273,7 +273,7 @@ class Ctx:
         self.evaluations += 1
         if not ok:
             self.prop_mismatch.append({"point": name, "level": "oracle", "case": case, "detail": detail,
-                                       "signature": sig or name, "theorem": theorem})
+                                       "signature": sig or name, "theorem": theorem, "env": getattr(self, "env_name", None)})
         return ok
 
     def note(self, s):
@@ -294,3 +294,58 @@ def write_json(path, obj):
     with open(tmp, "w") as f:
         json.dump(obj, f, indent=1, default=str)
     os.replace(tmp, path)
+
+
+# ---------------------------------------------------------------- process-global environments
+# Properties quantify over inputs, not over the caller's process-global settings; but a library that silently depends on one of them
+# (tensor factory calls without an explicit dtype, relative paths, autograd mode) breaks the property for a caller who changed it.
+# Every check therefore replays its corpus, and runs the module's optional `env_run(ctx, env_name)`, under each of these environments.
+import contextlib
+
+
+@contextlib.contextmanager
+def _default_dtype_float64():
+    import torch
+    old = torch.get_default_dtype()
+    torch.set_default_dtype(torch.float64)
+    try:
+        yield
+    finally:
+        torch.set_default_dtype(old)
+
+
+@contextlib.contextmanager
+def _no_grad():
+    import torch
+    with torch.no_grad():
+        yield
+
+
+@contextlib.contextmanager
+def _other_cwd():
+    import tempfile
+    old = os.getcwd()
+    d = tempfile.mkdtemp(prefix="qv_cwd_")
+    os.chdir(d)
+    try:
+        yield
+    finally:
+        os.chdir(old)
+        try:
+            os.rmdir(d)
+        except OSError:
+            import shutil
+            shutil.rmtree(d, ignore_errors=True)
+
+
+ENVS = {"default-dtype-float64": _default_dtype_float64, "no-grad": _no_grad, "other-cwd": _other_cwd}
+
+
+@contextlib.contextmanager
+def environment(name):
+    """context manager for one named process-global environment (None / "" = the ordinary one)"""
+    if not name:
+        yield
+    else:
+        with ENVS[name]():
+            yield
